@@ -7,6 +7,7 @@ import TzVerif.Spec.Lookup
 import TzVerif.Proofs.SpecLookup
 import TzVerif.Proofs.Search
 import TzVerif.Proofs.SearchRule
+import TzVerif.Proofs.NoPanic
 
 namespace TzVerif.Proofs
 open TzVerif.Model TzVerif.Gen
@@ -23,7 +24,136 @@ def FieldsGood (y mo d h mi s : Int) : Prop :=
 
 theorem validSet_mem_iff (z : TimeZone) (c u : Int) (t : LocalTimeType) :
     (u, t) ∈ Spec.validSet z c ↔ (t ∈ Spec.zoneTypes z ∧ u = c - t.utOffset ∧ Spec.zoneExpect z u = .type t) := by
-  sorry
+  unfold Spec.validSet
+  rw [List.mem_filterMap]
+  constructor
+  · rintro ⟨t', ht', h⟩
+    dsimp only at h
+    split at h
+    · rename_i he
+      simp only [Option.some.injEq, Prod.mk.injEq] at h
+      obtain ⟨h1, h2⟩ := h
+      subst h2
+      subst h1
+      exact ⟨ht', rfl, he⟩
+    · cases h
+  · rintro ⟨h1, h2, h3⟩
+    refine ⟨t, h1, ?_⟩
+    dsimp only
+    subst h2
+    rw [if_pos h3]
+
+/-! ### whatever the zone answers is one of its types -/
+
+theorem getD_mem_types (l : List LocalTimeType) (i : Nat) (hi : i < l.length) : l.getD i default ∈ l := by
+  rw [getD_eq_getElem' l i _ hi]
+  exact List.getElem_mem _
+
+theorem typeIndexAt_lt (z : TimeZone) (hne : z.localTimeTypes ≠ []) (hi : Spec.IndexesOK z) (L : Int) :
+    Spec.typeIndexAt z.transitions L < z.localTimeTypes.length := by
+  unfold Spec.typeIndexAt Spec.lastAtOrBefore
+  split
+  · exact List.length_pos_iff.mpr hne
+  · rename_i t ht
+    exact hi t (List.mem_filter.mp (List.mem_of_getLast? ht)).1
+
+theorem mem_zoneTypes_base (z : TimeZone) (t : LocalTimeType) (h : t ∈ z.localTimeTypes) : t ∈ Spec.zoneTypes z := by
+  unfold Spec.zoneTypes
+  dsimp only
+  rw [List.mem_eraseDups]
+  exact List.mem_append_left _ h
+
+theorem ruleExpect_mem (z : TimeZone) (r : TransitionRule) (hr : z.extraRule = some r) (u : Int) (t : LocalTimeType)
+    (h : Spec.ruleExpect r u = .type t) : t ∈ Spec.zoneTypes z := by
+  unfold Spec.zoneTypes
+  dsimp only
+  rw [List.mem_eraseDups, hr]
+  apply List.mem_append_right
+  cases r with
+  | fixed t' =>
+    simp only [Spec.ruleExpect, Spec.Expect.type.injEq] at h
+    subst h
+    exact List.mem_singleton.mpr rfl
+  | alternate a =>
+    simp only [Spec.ruleExpect] at h
+    split at h
+    · cases h
+    · split at h
+      · injection h with h; subst h; simp
+      · injection h with h; subst h; simp
+
+theorem zoneExpect_mem (z : TimeZone) (hne : z.localTimeTypes ≠ []) (hi : Spec.IndexesOK z) (u : Int) (t : LocalTimeType)
+    (h : Spec.zoneExpect z u = .type t) : t ∈ Spec.zoneTypes z := by
+  unfold Spec.zoneExpect at h
+  split at h
+  · split at h
+    · rename_i r hr
+      exact ruleExpect_mem z r hr u t h
+    · injection h with h
+      subst h
+      exact mem_zoneTypes_base z _ (getD_mem_types _ _ (List.length_pos_iff.mpr hne))
+  · dsimp only at h
+    split at h
+    · split at h
+      · rename_i r hr
+        exact ruleExpect_mem z r hr u t h
+      · cases h
+    · injection h with h
+      subst h
+      exact mem_zoneTypes_base z _ (getD_mem_types _ _ (typeIndexAt_lt z hne hi _))
+
+/-! ### ranges -/
+
+/-- an accepted search has passed the field check -/
+theorem find_fields_valid (y mo d h mi s ns : Int) (z : TimeZone) (rs : List Found)
+    (hf : findDateTime y mo d h mi s ns z = .ok rs) : 1 ≤ mo ∧ mo ≤ 12 ∧ 1 ≤ d ∧ d ≤ 31 := by
+  unfold findDateTime at hf
+  split at hf
+  · split at hf
+    · cases hf
+    · rename_i x hx
+      rw [dtNew_eq_expected] at hx
+      unfold dtNewExpected at hx
+      repeat' split at hx
+      all_goals try contradiction
+      omega
+  · dsimp only at hf
+    split at hf
+    · cases hf
+    · rename_i hc
+      obtain ⟨a1, a2, a3, a4, -⟩ := checkInputs_ok _ _ _ _ _ _ _ _ hc
+      have := monthLen_le y mo
+      omega
+
+theorem seconds_range (y mo d h mi s : Int) (hfd : FieldsGood y mo d h mi s)
+    (hv : 1 ≤ mo ∧ mo ≤ 12 ∧ 1 ≤ d ∧ d ≤ 31) :
+    -70000000000000000 ≤ Spec.seconds y mo d h mi s ∧ Spec.seconds y mo d h mi s ≤ 70000000000000000 := by
+  obtain ⟨f1, f2, f3, f4, f5, f6, f7, f8, f9, f10, f11, f12⟩ := hfd
+  have := unixTime_range y mo d h mi s (by simp only [InI32, i32Min, i32Max] at *; omega) ⟨hv.1, hv.2.1⟩
+    ⟨hv.2.2.1, by omega⟩ ⟨f7, f8⟩ ⟨f9, f10⟩ ⟨f11, f12⟩
+  rw [unixTime_eq_seconds y mo d h mi s ⟨hv.1, hv.2.1⟩] at this
+  exact this
+
+theorem zoneRuleOK_of_noDst (z : TimeZone) : NoDstRule z ∨ ∃ a, z.extraRule = some (.alternate a) := by
+  unfold NoDstRule
+  cases h : z.extraRule with
+  | none => exact Or.inl trivial
+  | some r =>
+    cases r with
+    | fixed t => exact Or.inl trivial
+    | alternate a => exact Or.inr ⟨a, rfl⟩
+
+theorem type_of_lookup (z : TimeZone) (hz : ZoneGood z) (u : Int) (hu : Inner u) (t : LocalTimeType) :
+    z.findLocalTimeType u = .ok t ↔ Spec.zoneExpect z u = .type t := by
+  obtain ⟨-, -, hok, hl, hr, -⟩ := hz
+  rw [zoneExpect_eq z hok hl hr u hu]
+  cases Spec.zoneExpect z u with
+  | type t' =>
+    constructor
+    · intro h; injection h with h; rw [h]
+    · intro h; injection h with h; rw [h]
+  | noAvail => constructor <;> intro h <;> cases h
+  | outOfRange => constructor <;> intro h <;> cases h
 
 /-- the valid results of the search are exactly the executable spec's set (as sets of (instant, type)) -/
 theorem search_is_validSet (y mo d h mi s ns : Int) (z : TimeZone) (rs : List Found)
@@ -31,6 +161,49 @@ theorem search_is_validSet (y mo d h mi s ns : Int) (z : TimeZone) (rs : List Fo
     (hf : findDateTime y mo d h mi s ns z = .ok rs) (u : Int) (t : LocalTimeType) :
     (u, t) ∈ Spec.validSet z (Spec.seconds y mo d h mi s) ↔
       ∃ x, Found.normal x ∈ rs ∧ x.unixTime = u ∧ x.localTimeType = t := by
-  sorry
+  have hz' := hz
+  obtain ⟨hne, hidx, hok, hl, hr, hoff⟩ := hz'
+  have hfd' := hfd
+  obtain ⟨f1, f2, f3, f4, f5, f6, f7, f8, f9, f10, f11, f12⟩ := hfd'
+  have hv := find_fields_valid y mo d h mi s ns z rs hf
+  have hc := seconds_range y mo d h mi s hfd hv
+  rw [validSet_mem_iff]
+  constructor
+  · rintro ⟨hm, hu, he⟩
+    have ho := hoff t hm
+    have hin : Inner u := by
+      simp only [Inner, i64Min, i64Max, i32Min, i32Max] at *
+      omega
+    have hlk := (type_of_lookup z hz u hin t).mpr he
+    have hu64 : i64Min ≤ u ∧ u ≤ i64Max := by
+      simp only [Inner, i64Min, i64Max] at *
+      omega
+    rcases zoneRuleOK_of_noDst z with hnd | ⟨a, ha⟩
+    · exact search_complete y mo d h mi s ns z rs hok hnd hf u t hu64 hlk (by omega)
+    · have hra : RuleOK a := by
+        unfold ZoneRuleOK at hr
+        rw [ha] at hr
+        exact hr
+      exact rule_search_complete y mo d h mi s ns z a rs hok ha hra hf u t hu64 hlk (by omega) ⟨f7, f9, f11⟩
+  · rintro ⟨x, hx, rfl, rfl⟩
+    have hent := find_entries_inv y mo d h mi s ns z rs f7 f9 f11 hf _ hx
+    dsimp only at hent
+    obtain ⟨-, -, hmin, hmax, -⟩ := hent
+    have hin : Inner x.unixTime := by
+      rw [c_min] at hmin
+      rw [c_max] at hmax
+      simp only [Inner, i64Min, i64Max]
+      omega
+    have hs : z.findLocalTimeType x.unixTime = .ok x.localTimeType ∧
+        x.unixTime + x.localTimeType.utOffset = Spec.seconds y mo d h mi s := by
+      rcases zoneRuleOK_of_noDst z with hnd | ⟨a, ha⟩
+      · exact search_sound y mo d h mi s ns z rs hok hnd hf x hx
+      · have hra : RuleOK a := by
+          unfold ZoneRuleOK at hr
+          rw [ha] at hr
+          exact hr
+        exact rule_search_sound y mo d h mi s ns z a rs hok ha hra hf x hx ⟨f7, f9, f11⟩ ⟨f1, f2⟩
+    have he := (type_of_lookup z hz _ hin _).mp hs.1
+    exact ⟨zoneExpect_mem z hne hidx _ _ he, by omega, he⟩
 
 end TzVerif.Proofs
